@@ -8,6 +8,16 @@ Open Scope Z_scope.
 
 Definition sec : Z := 1000000000.
 
+(* statements that only read *)
+Definition stmt_reads (st : stmt) : bool :=
+  match st with
+  | SPing | SIsReadOnly | SIsOffline | SShowReplica | SGtidExecuted | SSemiStatus | SReplSettings
+  | SUuid | SStartupTime | SBinlogs | SWaitingAck | SProcessIds | SListEvents | SReplMonDelay | SRefused => true
+  | _ => false
+  end.
+
+
+
 (* result of a node method: None = nil error *)
 Definition oerr := option err.
 
@@ -92,8 +102,8 @@ Definition set_read_only_with_force (fuel : nat) (h : host) (super : bool) : pro
   e3 <- set_read_only_once h super ;;
   match e3 with None => Ret None | Some _ =>
     Par 10799 [(h, (e <- set_read_only_once h super ;; Ret (match e with None => ROk | Some x => RErr x end)));
-               (h, kill_loop fuel h)]
-      (fun rs => match rs with (_, r) :: _ => Ret (resp_err r) | [] => Ret (Some EOther) end)
+               (0%N, kill_loop fuel h)]      (* key 0 = the background kill loop (hosts are numbered from 1) *)
+      (fun rs => match find (fun x => N.eqb (fst x) h) rs with Some (_, r) => Ret (resp_err r) | None => Ret (Some EOther) end)
   end end end.
 
 (* ---- node state (nodestate.NodeState) ------------------------------------- *)
@@ -101,24 +111,6 @@ Inductive repl_state := ReplRunning | ReplStopped | ReplError.
 Definition repl_state_of (rs : repl_status) : repl_state :=
   if rs_io rs && rs_sql rs then ReplRunning
   else if (rs_io_errno rs =? 0) && (rs_sql_errno rs =? 0) then ReplStopped else ReplError.
-
-Record node_state := {
-  ns_ping_ok : bool; ns_ping_dubious : bool;
-  ns_is_master : bool; ns_ro : bool; ns_super_ro : bool; ns_offline : bool;
-  ns_is_cascade : bool; ns_fs_ro : bool;
-  ns_has_error : bool;
-  ns_disk : option (Z * Z);                       (* used, total *)
-  ns_daemon : option (Z * Z * bool);              (* start, recovery, crash_recovery *)
-  ns_master_gtid : option gtidset;
-  ns_slave : option repl_status;
-  ns_semi : option (bool * bool * Z);
-  ns_repl_settings : option (Z * Z);
-  ns_check_at : Z }.
-
-Definition empty_ns : node_state :=
-  {| ns_ping_ok := false; ns_ping_dubious := false; ns_is_master := false; ns_ro := false; ns_super_ro := false;
-     ns_offline := false; ns_is_cascade := false; ns_fs_ro := false; ns_has_error := false; ns_disk := None;
-     ns_daemon := None; ns_master_gtid := None; ns_slave := None; ns_semi := None; ns_repl_settings := None; ns_check_at := 0 |}.
 
 (* mysql.IsErrorDubious *)
 Definition dubious_errnos : list Z := [1040; 1129; 1130; 1203; 3159; 1045; 1044; 1698].
